@@ -295,6 +295,18 @@ def part_throw(ctx, nss, RegionGeomToO):
         n = int(rng.choice([1, 2, 3, 10, 100, 250, 400]))
         check_throw(ctx, geom, cfg, n, "structured", ci)
         ctx.traces += 1
+        if ctx.dist.get("plots_inert_nonempty", 0) < 3 and len(geom.beta_rad()) >= 3:
+            ctx.count("plots_inert_nonempty")
+            # optional plots are inert: row i of the returned tuple (angle, nadir angle, path length, instant) describes one instant
+            import plotinert
+
+            def call(plot, cfg=cfg, n=n):
+                g_ = RegionGeomToO(cfg)
+                with np.errstate(all="ignore"):
+                    r = g_(n) if plot is None else g_(n, plot=plot)
+                vt = np.asarray((r[3] - g_.too_source.eventtime).sec, dtype=np.float64) if len(r[0]) else np.zeros(0)
+                return (np.asarray(r[0]), np.asarray(r[1]), np.asarray(r[2]), vt)
+            plotinert.check(ctx, "RegionGeomToO.__call__", call, {"cfg": ci, "N": n}, spellings=("list", "name"))
         # nadir angle as the code derives it from astropy's altitude
         alt = np.radians(np.asarray(geom.alt_deg, dtype=np.float64))
         nm = np.array([h2f(t[0]) for t in run_driver([f"c13nadir {f2h(a)}" for a in alt[:20]])])
@@ -356,6 +368,10 @@ def part_dark(ctx, nss, RegionGeomToO):
         geom = RegionGeomToO(cfg)
         too = geom.too_source
         n = int(rng.choice([24, 60, 120])) if not ctx.thorough else int(rng.choice([60, 120, 300]))
+        if ci in (1, 2):
+            # long series (a run with many surviving instants): the mask of instant i may not depend on how many there are
+            n = int(rng.integers(4097, 9000)) if ci == 1 else int(rng.choice([1024, 2048, 4096, 8192]))
+            ctx.count("dark_long_series")
         times = geom.generate_times(n)
         with np.errstate(all="ignore"):
             sun = np.asarray(too.get_sun(times).alt.rad, dtype=np.float64)
@@ -398,7 +414,7 @@ def part_dark(ctx, nss, RegionGeomToO):
         ctx.count("dark_true", int(got.sum()))
         ctx.count("dark_sun_down_moon_up_bright", int(((sun < sc) & ~((phase > pc) | (moon < mc))).sum()))
         # ---- metamorphic on the real code: monotone in each threshold
-        if ci % 2 == 0 or ctx.thorough:
+        if (ci % 2 == 0 or ctx.thorough) and n <= 1000:
             which = int(rng.integers(0, 3))
             d = float(rng.choice([1e-3, 0.05, 0.3]))
             if which == 0:
